@@ -99,8 +99,57 @@ def _fix_ifs(stmts: List[ast.stmt]) -> List[ast.stmt]:
     return out
 
 
-def _propagate(fn: ast.FunctionDef) -> None:
-    for _ in range(6):
+def _direct_mods(fn: ast.AST) -> Set[str]:
+    out: Set[str] = set()
+    for x in ast.walk(fn):
+        if isinstance(x, ast.Attribute) and isinstance(x.ctx, (ast.Store, ast.Del)):
+            out.add(x.attr)
+        elif isinstance(x, ast.Subscript) and isinstance(x.ctx, (ast.Store, ast.Del)):
+            v = x.value
+            while isinstance(v, ast.Subscript):
+                v = v.value
+            if isinstance(v, ast.Attribute):
+                out.add(v.attr)
+        elif isinstance(x, ast.Call) and isinstance(x.func, ast.Attribute) and x.func.attr in IMPURE_CALLS and isinstance(x.func.value, ast.Attribute):
+            out.add(x.func.value.attr)
+    return out
+
+
+def mod_summaries(prog: Program) -> Dict[str, Set[str]]:
+    """method name -> attribute names that some method of that name (in any class) may write, directly or through self-calls"""
+    cached = prog.__dict__.get("_jfsa_mods")
+    if cached is not None:
+        return cached
+    direct: Dict[str, Set[str]] = {}
+    calls: Dict[str, Set[str]] = {}
+    for ci in prog.classes:
+        for name, fn in ci.methods.items():
+            direct.setdefault(name, set()).update(_direct_mods(fn))
+            cs = calls.setdefault(name, set())
+            for x in ast.walk(fn):
+                if isinstance(x, ast.Call) and isinstance(x.func, ast.Attribute) and isinstance(x.func.value, ast.Name) and x.func.value.id == "self":
+                    cs.add(x.func.attr)
+                # calls on other objects may write too: unknown
+    mods = {k: set(v) for k, v in direct.items()}
+    changed = True
+    while changed:
+        changed = False
+        for name, cs in calls.items():
+            for c in cs:
+                extra = mods.get(c)
+                if extra is None:
+                    continue
+                if not extra <= mods[name]:
+                    mods[name] |= extra
+                    changed = True
+    prog.__dict__["_jfsa_mods"] = mods
+    return mods
+
+
+def _propagate(fn: ast.FunctionDef, prog: Optional[Program] = None) -> None:
+    mods = mod_summaries(prog) if prog is not None else None
+    skip: Set[str] = set()
+    for _ in range(40):
         counts = _stores(fn)
         params = {a.arg for a in fn.args.posonlyargs + fn.args.args + fn.args.kwonlyargs}
         attr_stores = set()
@@ -124,7 +173,7 @@ def _propagate(fn: ast.FunctionDef) -> None:
         for n in ast.walk(fn):
             if isinstance(n, ast.Assign) and len(n.targets) == 1 and isinstance(n.targets[0], ast.Name):
                 name = n.targets[0].id
-                if counts.get(name, 0) != 1 or name in params or not _is_pure(n.value):
+                if counts.get(name, 0) != 1 or name in params or name in skip or not _is_pure(n.value):
                     continue
                 free = {x.id for x in ast.walk(n.value) if isinstance(x, ast.Name)}
                 if name in free or any(counts.get(f, 0) > 1 for f in free):
@@ -134,8 +183,10 @@ def _propagate(fn: ast.FunctionDef) -> None:
                 read_recv = {(ast.unparse(x.value), x.attr) for x in ast.walk(n.value) if isinstance(x, ast.Attribute)}
                 relevant = [m for m in mutation_sites if m[0] in read_attrs and (_recv_text(m[1]), m[0]) in read_recv]
                 if read_attrs and self_calls:
-                    # a method of the object itself may change any field the value reads
-                    relevant = relevant + [("*", c) for c in self_calls if not any(c is x for x in ast.walk(n.value))]
+                    # a method of the object itself may change the fields the value reads (write summaries when the program is
+                    # known, otherwise any self-call counts)
+                    relevant = relevant + [("*", c) for c in self_calls if not any(c is x for x in ast.walk(n.value))
+                                           and (mods is None or c.func.attr not in mods or (mods[c.func.attr] & read_attrs))]
                 if relevant:
                     # allowed only if no change of these attributes lies between the definition and its last use (in evaluation
                     # order), and no loop that does not contain the definition contains both a use and a change
@@ -164,7 +215,11 @@ def _propagate(fn: ast.FunctionDef) -> None:
         uses = [x for x in ast.walk(fn) if isinstance(x, ast.Name) and x.id == name and isinstance(x.ctx, ast.Load)]
         if not uses:
             # unused local: leave it (removing is not our business), but stop considering it
-            cand.targets[0].id = name + "@unused"
+            skip.add(name)
+            continue
+        if len(uses) > 1 and not _cheap(cand.value):
+            # a computed value that is used several times stays a local (rules that count computations see it once)
+            skip.add(name)
             continue
         _Subst({name: cand.value}).visit(fn)
         _remove_stmt(fn, cand)
@@ -194,6 +249,19 @@ def _eval_order(fn: ast.AST) -> Dict[int, int]:
         order[id(n)] = len(order) + 1
     visit(fn)
     return order
+
+
+def _cheap(e: ast.AST) -> bool:
+    """a name, constant, attribute chain or subscript of those: duplicating it duplicates no computation"""
+    if isinstance(e, (ast.Name, ast.Constant)):
+        return True
+    if isinstance(e, ast.Attribute):
+        return _cheap(e.value)
+    if isinstance(e, ast.Subscript):
+        return _cheap(e.value) and _cheap(e.slice)
+    if isinstance(e, ast.UnaryOp):
+        return _cheap(e.operand)
+    return False
 
 
 def _recv_text(node: ast.AST) -> str:
@@ -394,7 +462,28 @@ def flat(stmts: List[ast.stmt]) -> List[ast.stmt]:
 
 def canon(prog: Program, cls: Optional[ClassInfo], fn: ast.FunctionDef, exclude: Iterable[str] = (), helpers: bool = True,
           locals_: bool = True) -> ast.FunctionDef:
-    key = (cls.qual if cls else None, tuple(sorted(exclude)), helpers and cls is not None, locals_)
+    if prog is None and cls is not None:
+        prog = getattr(cls, "prog", None)
+    # the canonical form depends on the class only through the helpers its self-calls resolve to: key by that resolution, so
+    # that subclasses which do not override any helper share the result
+    sig: tuple = ()
+    if cls is not None and prog is not None and helpers:
+        methods = prog.all_methods(cls)
+        seen: Set[str] = set()
+        todo = [fn]
+        while todo:
+            f0 = todo.pop()
+            names = f0.__dict__.get("_jfsa_selfcalls")
+            if names is None:
+                names = sorted({c.func.attr for c in ast.walk(f0) if isinstance(c, ast.Call) and isinstance(c.func, ast.Attribute)
+                                and isinstance(c.func.value, ast.Name) and c.func.value.id == "self" and c.func.attr.startswith("_")})
+                f0.__dict__["_jfsa_selfcalls"] = names
+            for nm in names:
+                if nm not in seen and nm in methods:
+                    seen.add(nm)
+                    todo.append(methods[nm][1])
+        sig = tuple(sorted((nm, methods[nm][0].qual) for nm in seen))
+    key = (sig if helpers and cls is not None else None, tuple(sorted(exclude)), helpers and cls is not None, locals_)
     cache = fn.__dict__.setdefault("_jfsa_canon", {})
     if key in cache:
         return cache[key]
@@ -407,7 +496,7 @@ def canon(prog: Program, cls: Optional[ClassInfo], fn: ast.FunctionDef, exclude:
         _inline_helpers(prog, cls, f, set(exclude))
     f.body = _fix_ifs(f.body)
     if locals_:
-        _propagate(f)
+        _propagate(f, prog)
         f.body = _fix_ifs(f.body)
     ast.fix_missing_locations(f)
     cache[key] = f
